@@ -889,6 +889,15 @@ def _judge_step(ctx, tag, loss, code_dd, R, ll, dll, bl_val, rtok, ltok, btok, s
     xtol = 0.0
     if scaler is not None and sc_tok not in ("off",) and not isinstance(scaler.mode, int):
         xtol = 4 * scaler.bound
+        # the bound's constant was fitted on batches of 32+ values; with a handful of observed values (POMO with B = 1, S = 2:
+        # two per step) the float32 std of nearly equal scores is relatively less accurate than the fit predicts (false alarm
+        # at thorough seed 3: N = 6, loss off by 1.0e-4 relative) — small-sample floor, irrelevant for N ≥ 32
+        try:
+            n_seen = sum(len(h[1]) for h in scaler.hist)
+        except Exception:
+            n_seen = 10 ** 9
+        if n_seen < 32:
+            xtol = max(xtol, 1e-3)
     okay = _compare_loss(ctx, tag, rep, float(loss), code_dd, dbl, wit, scale_d, xtol=xtol)
     if rep["advshape"] != rep["rewardshape"]:
         ctx.violation("advantage-broadcast", f"{tag}: advantage shape {rep['advshape']} ≠ reward shape {rep['rewardshape']}", wit)
@@ -1452,7 +1461,17 @@ def check_ppo(ctx):
             else:
                 code_dd = dirn.dd(loss)
                 scale_d = (sum(abs(d) for d in lld) / max(1, b)) * (float(rew.abs().max()) + 1)
-                okay = _compare_loss(ctx, "PPO", rep, float(loss), code_dd, dbl, wit, scale_d)
+                # normalize_adv subtracts the float mean of the advantages and divides by their float std: for a small
+                # mini-batch of nearly equal advantages both are ill-conditioned in the scores' dtype (conditioning
+                # r = max|adv| / std); the model subtracts the exact mean (false alarm at thorough seed 4: b = 2, float32,
+                # loss off by 1e-3 relative).  The tolerance is widened by the rounding this amplifies.
+                xtol_ppo = 0.0
+                if norm_adv:
+                    u_ = 2.0 ** -24 if dtype == torch.float32 else 2.0 ** -53
+                    sd_ = float(adv0.std())
+                    r_ = float(adv0.abs().max()) / sd_ if sd_ > 0 else float("inf")
+                    xtol_ppo = min(16 * u_ * r_, 0.5)
+                okay = _compare_loss(ctx, "PPO", rep, float(loss), code_dd, dbl, wit, scale_d, xtol=xtol_ppo)
                 if rep["advshape"] != f"[{b},1]" or rep["ratioshape"] != f"[{b},1]":
                     ctx.violation("advantage-broadcast", f"PPO: advantage {rep['advshape']} / ratio {rep['ratioshape']} not [b,1]", wit)
                 if norm_adv:
@@ -1468,7 +1487,8 @@ def check_ppo(ctx):
                     if kinks:
                         ctx.count("c16.ppo.minibatch-with-kink")
                     _judge_reference(ctx, "PPO", "the clipped-ratio objective with value and entropy terms", pdual(rep["loss"]),
-                                     pdual(rep["spec"]), float(loss), code_dd, dbl, wit, scale_d, okay, check_d=(kinks == 0))
+                                     pdual(rep["spec"]), float(loss), code_dd, dbl, wit, scale_d, okay, check_d=(kinks == 0),
+                                     xtol=xtol_ppo)
                     ctx.count("c16.reference-evaluated")
             loss.backward()
 
